@@ -10,6 +10,7 @@ import MTVerif.Model.Trigger
 import MTVerif.Model.GetStub
 import MTVerif.Model.Store
 import MTVerif.Model.Tracer
+import MTVerif.Model.Filter
 namespace MT
 open Sexp
 
@@ -181,6 +182,15 @@ def handle (st : DState) (req : Sexp) : Except String (DState × Sexp) :=
                                 rate := (match rate with | .atom "none" => none | r => (natOf r).toOption) }
       let s := Tracer.run cfg (← draws.mapM natOf) (← evs.mapM evOf)
       .ok (st, .list [.list (s.log.map (fun x => sexpOfPTrace x.2)), .atom (toString s.traces.length), .atom (toString s.draws.length)])
+  | .list [.atom "codeFilter", .list libs, allow, .list [fn, .list parts, stem]] => do
+      let libs' ← libs.mapM (fun l => match l with | .list xs => xs.mapM strOf | _ => .error "bad lib path")
+      let allow' ← (match allow with
+        | .atom "none" => .ok none
+        | .list ms => (ms.mapM strOf).map some
+        | _ => .error "bad allow list")
+      let ci : Filter.CodeInfo := { filename := ← strOf fn, parts := ← parts.mapM strOf, stem := ← strOf stem }
+      .ok (st, sexpOfBool (Filter.defaultFilter libs' allow' ci))
+  | .list [.atom "storeKeeps", m] => do .ok (st, sexpOfBool (Filter.storeKeeps (← strOf m)))
   | .list [.atom "trig", r, t] => do
       .ok (st, sexpOfBool ((← tyOf t).trig (← rwOf r)))
   | .list [.atom "normal", t] => do
